@@ -8,3 +8,5 @@ pub mod dsv;
 pub mod json_sm;
 pub mod bits;
 pub mod jqval;
+pub mod parens;
+pub mod seq;
